@@ -53,7 +53,8 @@ class map(DaskStream):
 
     def update(self, x, who=None, metadata=None):
         client = default_client()
-        result = client.submit(self.func, x, *self.args, **self.kwargs)
+        # keep the user's keyword arguments apart from Client.submit's own (key, retries, priority, ...)
+        result = client.submit(apply, self.func, (x,) + tuple(self.args), self.kwargs)
         return self._emit(result, metadata=metadata)
 
 
